@@ -219,11 +219,12 @@ static void zbig_one(int version, size_t vlen) {
 	vh_watchdog_s = 900;
 	uint8_t hdr[32]; size_t hl = 0; hl += ic_putvar(hdr + hl, 0); hl += ic_putvar(hdr + hl, 1); hl += ic_putvar(hdr + hl, vlen); hdr[hl++] = 'k';
 	size_t rawlen = hl + vlen + 8;
-	uint8_t *raw = malloc(rawlen); if (!raw) { printf("@error \"zbig: out of memory\"\n"); vh_batch_exit(); }
+	uint8_t *raw = malloc(rawlen); if (!raw) { printf("@note \"zlib block of %zu bytes skipped: this machine cannot allocate it\"\n", rawlen); VH_COUNT("zlib_big_skipped_no_memory", 1); vh_case_end(); vh_batch_exit(); }
 	memcpy(raw, hdr, hl); uint64_t st = 88172645463325252ull; for (size_t i = 0; i < vlen; i++) raw[hl + i] = zb_byte(&st);
 	ic_put32(raw + hl + vlen, 0); ic_put32(raw + hl + vlen + 4, 1);
 	vh_case_seq++;
-	uLongf cl = compressBound(rawlen); uint8_t *cz = malloc(cl); if (!cz || compress2(cz, &cl, raw, rawlen, 0) != Z_OK) { printf("@error \"zbig: zlib refuses to build the stream\"\n"); vh_batch_exit(); }
+	uLongf cl = compressBound(rawlen); uint8_t *cz = malloc(cl); if (!cz) { printf("@note \"zlib block of %zu bytes skipped: this machine cannot allocate the stream buffer\"\n", rawlen); VH_COUNT("zlib_big_skipped_no_memory", 1); vh_case_end(); vh_batch_exit(); }
+	if (compress2(cz, &cl, raw, rawlen, 0) != Z_OK) { printf("@error \"zbig: zlib refuses to build the stream\"\n"); vh_batch_exit(); }
 	free(raw);
 	vh_case_seq++;
 	int fd = tbl_memfd(); uint8_t tmp[16]; size_t n; uint64_t off = 0;
